@@ -244,6 +244,7 @@ class ClientNode:
         self.last_status = None
         self.connect_cbs = []      # (t, inc, value)
         self.alive = True
+        self.waiting = False
 
     def start(self):
         self.k.at(self.cfg.get("t0", 0.0), self.node, self.frame)
@@ -255,10 +256,14 @@ class ClientNode:
         if k.now < self.stall_until:
             k.at(self.stall_until, self.node, self.frame)
             return
+        if self.waiting:
+            # the application thread sits in UdpClient.waitForDisconnect(): no frame runs until that returns
+            k.after(self.dt, self.node, self.frame)
+            return
         while self.ops and self.ops[0]["t"] <= k.now:
             self.do(self.ops.popleft())
         c = self.client
-        if c is not None:
+        if c is not None and not self.waiting:
             w.current_client = self
             self.n_update += 1
             try:
@@ -272,8 +277,11 @@ class ClientNode:
             except Exception as e:      # noqa
                 w.exc(self.name, "getMessages", e)
                 msgs = []
+            if msgs and c.conn is not None:
+                self.last_conn = c.conn
             for seq, msg in msgs:
-                w.delivered(self.name, c.conn, msg, seq)
+                # (messages handed over while no connection object exists are booked on the last connection of this node)
+                w.delivered(self.name, c.conn if c.conn is not None else getattr(self, "last_conn", None) or w.client_conns[-1], msg, seq)
             self.track_status()
         k.after(self.dt, self.node, self.frame)
 
@@ -400,6 +408,23 @@ class ClientNode:
         if self.client is not None:
             self.w.app_event(self.name, self.inc, "disconnect_call")
             self.client.disconnect()
+            if op.get("wait"):
+                # ... followed by the blocking convenience call the documentation recommends: it runs update() in a loop
+                # (on the application's thread, here a baton thread of this node) until the server acknowledged the
+                # disconnect or one second passed, then drops the connection object and closes the socket
+                c = self.client
+                self.waiting = True
+                self.w.probe("client_waitForDisconnect")
+
+                def run(self=self, c=c):
+                    try:
+                        c.waitForDisconnect()
+                    except Exception as e:      # noqa
+                        self.w.exc(self.name, "waitForDisconnect", e)
+                    finally:
+                        self.waiting = False
+                        self.sock = None
+                self.k.spawn("%s-waitdisc%d" % (self.name, self.inc), self.node, run)
 
     def op_rechallenge(self, op):
         """A protocol-complete but misbehaving client: it sends its (valid, encrypted) challenge response once more."""
@@ -617,6 +642,13 @@ class World:
                     self.probe("send_callback_raised")
                     raise AppError("application send callback failed")
         k.rec("send", who, len(payload), retry, api)
+        buf = None
+        if op.get("mutable"):
+            # the application hands over its reusable serialization buffer (a bytearray) and writes into it again right
+            # after the call: the library either refuses the type or has taken the bytes as they were at send() time
+            buf = payload = bytearray(payload)
+            rec["mutable"] = True
+            self.probe("send_of_a_mutable_buffer")
         try:
             if api == "send_guaranteed":
                 endpoint.send_guaranteed(payload, callback=cb)
@@ -625,6 +657,19 @@ class World:
             else:
                 endpoint.send(payload, retry=retry, callback=cb)
             rec["ok"] = True
+            if buf is not None:
+                self.probe("mutable_buffer_accepted_and_overwritten")
+                for j in range(len(buf)):
+                    buf[j] ^= 0xA5
+        except TypeError as e:
+            if buf is None:
+                rec["ok"] = False
+                rec["exc"] = type(e).__name__
+                self.exc(who, "send:" + api, e, op)
+            else:
+                rec["ok"] = False           # refused: not a bytes object - nothing was queued, nothing will arrive
+                rec["exc"] = "TypeError"
+                rec["refused_mutable"] = True
         except Exception as e:          # noqa
             rec["ok"] = False
             rec["exc"] = type(e).__name__
